@@ -370,6 +370,9 @@ func c12(c *Ctx) {
 		{d: 600, targets: []c12Target{{dur: 2500, sh: true}}, way: "static"},
 		// SIGINT during the second target: cancellation, not sudden death (the first target's end must not drop the handler)
 		{targets: []c12Target{{dur: 300, honours: true}, {dur: 2400, honours: true}, {dur: 200, honours: true}}, sig1: 900, way: "static"},
+		// the deadline is shared: each target alone is shorter than d, together they are not (drawn at random this shape is
+		// absent from one quick run in eight)
+		{d: 800, targets: []c12Target{{dur: 560, honours: true}, {dur: 560, honours: true}, {dur: 240, honours: true}}, way: "static"},
 	}
 	for i := 0; i < c.N+len(fixed); i++ {
 		var k c12Case
